@@ -58,7 +58,7 @@ fn aspath_sets() -> Vec<(&'static str, Vec<&'static str>)> {
 }
 
 fn comm_sets() -> Vec<(&'static str, Vec<&'static str>)> {
-    vec![("cs1", vec!["65000:1"]), ("cs2", vec!["65000:1", "65000:2"])]
+    vec![("cs1", vec!["65000:1"]), ("cs2", vec!["65000:1", "65000:2"]), ("cs3", vec!["65000:1."]), ("cs4", vec!["65000:12[0-9]", "65000:2"])]
 }
 
 fn new_table(e: Emb) -> PolicyTable {
@@ -360,7 +360,7 @@ fn main() {
                 pols.push(json!({"stmts": [{"conds": [{"k": "aslen", "cmp": cmp, "n": k}], "disp": "reject", "act": "none"}], "default": "accept"}));
             }
         }
-        for set in ["cs1", "cs2"] {
+        for set in ["cs1", "cs2", "cs3", "cs4"] {
             for o in ["any", "all", "invert"] {
                 pols.push(json!({"stmts": [{"conds": [{"k": "community", "set": set, "opt": o}], "disp": "none", "act": "commrm"}], "default": "accept"}));
             }
